@@ -1,7 +1,7 @@
 -------------------------------- MODULE CRSTextGen --------------------------------
 EXTENDS CRSText, Json
 VARIABLE c
-GenInit == /\ crs \in {x \in Universe : x.proj # "longlat" \/ (x.unit = "m" /\ x.ord = 1 /\ x.style = "esri")}
+GenInit == /\ crs \in {x \in Universe : x.proj # "longlat" \/ (x.unit = "m" /\ x.ord = 1 /\ x.style = "esri" /\ x.upos = "last")}
            /\ c = [kind |-> "crs", crs |-> crs, p4 |-> P4(crs), wkt |-> WKT(crs), used |-> Used(crs.proj)]
            /\ PrintT(ToJson(c))
 GenSpec == GenInit /\ [][UNCHANGED <<crs, c>>]_<<crs, c>>
